@@ -1,5 +1,7 @@
 import Cirbo.Proofs.Passes
 import Cirbo.Proofs.RrgIdem
+import Cirbo.Proofs.MuoPost
+import Cirbo.Proofs.MdgPost
 /-!
 # C18 — Simplification passes achieve their stated effect; pipelines equal sequencing
 
@@ -8,8 +10,11 @@ import Cirbo.Proofs.RrgIdem
 -- OBLIGATION: c18_pipeline_is_sequencing
 -- OBLIGATION: c18_pipe_operator_is_sequencing
 -- OBLIGATION: c18_cleanup_is_sequencing
+-- OBLIGATION: c18_mdg_no_two_gates_with_same_signature
+-- OBLIGATION: c18_muo_no_double_negation
+-- OBLIGATION: c18_muo_no_buffer_operand_or_output
 -- OBLIGATION: c18_reduction_only_drops_repeated_rrg
--- PARTIAL: the postconditions of MergeDuplicateGates (no two gates with the same signature), MergeEquivalentGates (no two non-input gates with the same truth table) and MergeUnaryOperators (no NOT of NOT / no buffer as operand or output) are decided on every run by the search over the real passes plus the one-to-one model correspondence; their theorems are not proved yet. Idempotence and the pipeline theorems are stated for well-formed circuits (the C02 invariant plus right arities), which is what every public constructor produces.
+-- PARTIAL: the postcondition of MergeEquivalentGates (no two non-input gates with the same truth table) is decided on every run by the search over the real passes plus the one-to-one model correspondence; its theorem is not proved yet. Idempotence and the pipeline theorems are stated for well-formed circuits (the C02 invariant plus right arities), which is what every public constructor produces.
 -/
 namespace Cirbo
 
@@ -55,6 +60,33 @@ theorem c18_cleanup_is_sequencing {c : Circuit} (hw : WFS c) (har : ArOK c) (hea
       ([.rrg false, .muo, .rrg false, .mdg, .rrg false] ++ (if heavy then [.meg, .rrg false] else [])) :=
   cleanup_eq_seq_wf hw har heavy
 
+/-- MergeDuplicateGates (the pass with its implied `RemoveRedundantGates()`): no two non-input gates
+of the result have the same type and operands — operands compared up to order for symmetric types,
+which is what `signature` (the model of `_build_signature`) does. Before the implied removal the same
+holds among the gates the outputs depend on (`mdg_no_duplicates`). -/
+theorem c18_mdg_no_two_gates_with_same_signature {c c' c'' : Circuit} (hw : WFS c)
+    (h : mdg c = .ok c') (h2 : rrg false c' = .ok c'') :
+    ∀ g1 ∈ c''.gates, ∀ g2 ∈ c''.gates, g1.ty ≠ GateType.INPUT → g2.ty ≠ GateType.INPUT →
+      signature g1.ty g1.ops = signature g2.ty g2.ops → g1 = g2 :=
+  mdg_rrg_no_duplicates hw h h2
+
+/-- MergeUnaryOperators (the pass with its implied `RemoveRedundantGates()`), on a circuit whose
+unary gates are all negations: no negation in the result has a negation as its operand. -/
+theorem c18_muo_no_double_negation {c c' c'' : Circuit} (hw : WFS c)
+    (hneg : ∀ g ∈ c.gates, isIffLike g.ty = false)
+    (h : muo c = .ok c') (h2 : rrg false c' = .ok c'') :
+    ∀ g ∈ c''.gates, isNotLike g.ty = true → ∀ o, unaryOperand g = some o → isNotAt c'' o = false :=
+  muo_rrg_no_double_neg hw hneg h h2
+
+/-- MergeUnaryOperators on a circuit whose unary gates are all buffers: no operand of any gate and no
+output of the result is a buffer — already before, and still after, the implied removal. -/
+theorem c18_muo_no_buffer_operand_or_output {c c' c'' : Circuit} (hw : WFS c)
+    (hbuf : ∀ g ∈ c.gates, isNotLike g.ty = false)
+    (h : muo c = .ok c') (h2 : rrg false c' = .ok c'') :
+    ((∀ g ∈ c'.gates, ∀ o ∈ g.ops, isIffAt c' o = false) ∧ (∀ o ∈ c'.outputs, isIffAt c' o = false)) ∧
+    ((∀ g ∈ c''.gates, ∀ o ∈ g.ops, isIffAt c'' o = false) ∧ (∀ o ∈ c''.outputs, isIffAt c'' o = false)) :=
+  ⟨muo_no_buffer hw hbuf h, muo_rrg_no_buffer hw hbuf h h2⟩
+
 /-! Non-vacuity -/
 open GateType in
 def c18Example : R Circuit := runOps Circuit.empty
@@ -68,6 +100,9 @@ example : ((c18Example >>= rrg false >>= rrg false).toOption.map fun c => c.labe
 #print axioms c18_pipeline_is_sequencing
 #print axioms c18_pipe_operator_is_sequencing
 #print axioms c18_cleanup_is_sequencing
+#print axioms c18_mdg_no_two_gates_with_same_signature
+#print axioms c18_muo_no_double_negation
+#print axioms c18_muo_no_buffer_operand_or_output
 #print axioms c18_reduction_only_drops_repeated_rrg
 
 end Cirbo
